@@ -133,7 +133,11 @@ func C02(c *Ctx) {
 						continue
 					}
 					// a helper that is itself gated (its error result is the last one)
-					if g.Signature.Recv() != nil && strings.Contains(core.FnName(g), "InterchainManager") && gated(g, d+1) {
+					isIM := g.Signature.Recv() != nil && strings.Contains(core.FnName(g), "InterchainManager")
+					if ct := c.Contracts().bvm.ContractOfFn(g); ct != nil && ct.Name == "InterchainManager" {
+						isIM = true // also a method of a context struct that carries the interchain manager
+					}
+					if isIM && gated(g, d+1) {
 						gi := g.Signature.Results().Len() - 1
 						if g.Signature.Results().Len() == 1 {
 							gi = -1
